@@ -33,6 +33,8 @@ def classify_enc(ret: Optional[Sym], value: Sym) -> Tuple[str, Any]:
         return "none", None
     if ret == value:
         return "raw", None
+    if ret == C(b""):
+        return "empty", None
     if ret[0] == "call":
         name = dotted(ret[1])
         if name == "encode_varint" and len(ret[2]) == 1:
@@ -270,7 +272,7 @@ def model(ctx) -> CodecModel:
 # rules
 
 
-def rule_T1(ctx, rule: str = "T1") -> None:
+def rule_T1(ctx, rule: str = "T1", only: Optional[Tuple[str, ...]] = None) -> None:
     """encoder <-> decoder dispatch agreement for every type"""
     m = model(ctx)
     mod = m.mod
@@ -279,7 +281,7 @@ def rule_T1(ctx, rule: str = "T1") -> None:
     loc_d = mod.loc(mod.func("Message._postprocess_single"))
     zig_dec: Dict[str, Any] = {}
     for t in TYPE_NAMES:
-        if t == "map":
+        if t == "map" or (only is not None and t not in only):
             continue
         w = m.wire_of(t)
         if w is None:
@@ -341,8 +343,9 @@ def rule_T1(ctx, rule: str = "T1") -> None:
             if kinds != ["raw"] or dkinds != ["plain"] or w != 2:
                 ok, why = False, f"bytes must pass through unchanged on wire type 2: enc={kinds} wire={w} dec={dkinds}"
         elif t == "message":
-            if "submessage" not in kinds or w != 2:
-                ok, why = False, f"message must be encoded as bytes(sub) on wire type 2: enc={kinds} wire={w}"
+            if "submessage" not in kinds or w != 2 or (set(kinds) - {"submessage", "empty"}):
+                ok, why = False, (f"a sub-message must always be encoded as bytes(sub) on wire type 2 (its unknown fields and presence live there; "
+                                  f"truthiness of a message ignores unknown fields): enc={kinds} wire={w}")
             elif not any(k == "submessage" for _, k, _, _ in decs):
                 ok, why = False, f"no decoder path parses the sub-message: {dkinds}"
         if ok:
@@ -744,6 +747,7 @@ def _entry_part(s: Sym) -> str:
 
 def rule_T5(ctx) -> None:
     """presence bits are set on decode"""
+    rule_T5b(ctx)
     mod = ctx.repo.mod(M_INIT)
     load = mod.func("Message.load")
     paths = _load_paths(ctx, mod, None, None)
@@ -848,6 +852,41 @@ def rule_W2(ctx) -> None:
         ctx.proved("W2", "merge[scalar:last-wins]", mod.loc(load))
     else:
         ctx.refuted("W2", "merge[scalar:last-wins]", "no-tracked-store", mod.loc(load), "a singular occurrence is not stored through setattr(self, field, value)")
+
+
+def rule_T5b(ctx, rule: str = "T5") -> None:
+    """every decoded occurrence of a known singular field is stored through the tracked setattr, unconditionally:
+    presence (and oneof selection) is recorded by the store, not by the value"""
+    mod = ctx.repo.mod(M_INIT)
+    load = mod.func("Message.load")
+    cur_list = ("call", N("isinstance"), (N("$current"), N("list")), ())
+    bad = None
+    n = 0
+    for t, w in (("int32", 0), ("string", 2), ("message", 2), ("enum", 0)):
+        def_list = ("call", N("isinstance"), (N("$default"), N("list")), ())
+        paths = _load_paths(ctx, mod, t, w, assume={cur_list: False, def_list: False})
+        for p in paths:
+            if p.outcome == "raise" or not p.valuation.get(FIELD_NAME, False):
+                continue
+            # a singular occurrence decodes to a scalar (only the packed branch builds a list)
+            if any(v for k, v in p.valuation.items() if k[0] == "call" and k[1] == N("isinstance") and len(k[2]) == 2 and k[2][1] == N("list")
+                   and k[2][0][0] == "call" and dotted(k[2][0][1]).endswith("_postprocess_single")):
+                continue
+            n += 1
+            stored = any(e.kind == "call" and e.depth == 0 and dotted(e.data[1]) == "setattr" and len(e.data[2]) == 3 and e.data[2][0] == N("self")
+                         and e.data[2][1] == FIELD_NAME and e.data[2][2] not in (N("$default"), N("$current")) for e in p.events)
+            if not stored:
+                bad = (t, p)
+    if bad:
+        t, p = bad
+        ctx.refuted(rule, "load:singular-occurrence-always-stored", f"skipped:{t}", mod.loc(load),
+                    f"a decoded occurrence of a singular {t} field is not stored on the path {val_text(p.valuation)}: whether a field was received must not depend on the value "
+                    "(an empty sub-message or a default-valued oneof member compares equal to the lazily created default and would be dropped)",
+                    "Outer().parse(b'\\x0a\\x00'); serialized_on_wire(outer.inner)")
+    elif n == 0:
+        ctx.inconclusive(rule, "load:singular-occurrence-always-stored", "no known-field path found", mod.loc(load))
+    else:
+        ctx.proved(rule, "load:singular-occurrence-always-stored", mod.loc(load), f"{n} paths")
 
 
 def rule_W3(ctx) -> None:
